@@ -352,3 +352,98 @@ func I6(rc *RC) {
 		rc.S.Viol("I6", "ndNext~colMajorNDNext", pos, "the two odometers differ beyond direction: "+firstDiff(ra, rb)).Sig = firstDiff(ra, rb)
 	}
 }
+
+// I6c: the two vector steppers are mirror images (+1 / -1, done at size / below zero).
+func I6c(rc *RC) {
+	rc.S.Declare("I6c", "vector stepper mirror: singlePrevious equals singleNext with +1/-1 exchanged and the exhaustion test tracked >= size / tracked < 0 exchanged", 1)
+	a, _, pos, ok1 := iCanonText(rc, "tensor.(*FlatIterator).singleNext")
+	b, _, _, ok2 := iCanonText(rc, "tensor.(*FlatIterator).singlePrevious")
+	if !ok1 || !ok2 {
+		rc.S.Undec("I6c", "singleNext~singlePrevious", "-", "unresolved anchor")
+		return
+	}
+	na := alphaNormKeepRecv(a)
+	nb := alphaNormKeepRecv(b)
+	mb := strings.ReplaceAll(nb, " - 1)", " + 1)")
+	mb = regexp.MustCompile(`if \(0 > (l\d+)\)`).ReplaceAllString(mb, "if ($1 >= $$r.size)")
+	if !strings.Contains(na, " + 1)") || !strings.Contains(nb, " - 1)") {
+		rc.S.Undec("I6c", "singleNext~singlePrevious", pos, "steppers are not in the +1/-1 form")
+		return
+	}
+	if na == mb {
+		rc.S.Ok("I6c", "singleNext~singlePrevious", pos, "mirror images")
+	} else {
+		rc.S.Viol("I6c", "singleNext~singlePrevious", pos, "the two vector steppers differ beyond direction: "+firstDiff(na, mb)).Sig = firstDiff(na, mb)
+	}
+}
+
+// alphaNormKeepRecv numbers locals but keeps receiver fields readable.
+func alphaNormKeepRecv(s string) string {
+	s = strings.ReplaceAll(s, "$r.", "\x01r.")
+	s = alphaNorm(s)
+	return strings.ReplaceAll(s, "\x01r.", "$r.")
+}
+
+// I6b: the backward odometer is the mirror image of the forward one:
+// track+1 / track-1, wrap test track == shape / track < 0, wrap value 0 / shape-1, and the
+// two offset updates with opposite signs. ndNext keeps its offset in a local that is copied
+// in and out; that is folded first.
+func I6b(rc *RC) {
+	rc.S.Declare("I6b", "odometer mirror: ndPrevious equals ndNext under the mirror map (+1/-1 on the coordinate, wrap at shape / below zero, wrap to 0 / shape-1, opposite signs on both offset updates)", 1)
+	a, _, pos, ok1 := iCanonText(rc, "tensor.(*FlatIterator).ndNext")
+	b, _, _, ok2 := iCanonText(rc, "tensor.(*FlatIterator).ndPrevious")
+	if !ok1 || !ok2 {
+		rc.S.Undec("I6b", "ndNext~ndPrevious", "-", "unresolved anchor")
+		return
+	}
+	// fold ndNext's local offset copy
+	var la []string
+	local := ""
+	for _, l := range strings.Split(a, "\n") {
+		t := strings.TrimSpace(l)
+		if m := regexp.MustCompile(`^(%\w+) = \$r\.nextIndex$`).FindStringSubmatch(t); m != nil && local == "" {
+			local = m[1]
+			continue
+		}
+		if local != "" && t == "$r.nextIndex = "+local {
+			continue
+		}
+		la = append(la, l)
+	}
+	na := strings.Join(la, "\n")
+	if local != "" {
+		na = ir.ReplaceWord(na, local, "$r.nextIndex")
+	}
+	na = alphaNormKeepRecv(na)
+	nb := alphaNormKeepRecv(b)
+	// mirror map applied to ndPrevious, line by line
+	idx := regexp.MustCompile(`\[(l\d+)\]`).FindStringSubmatch(nb)
+	if idx == nil {
+		rc.S.Undec("I6b", "ndNext~ndPrevious", pos, "no indexed coordinate in ndPrevious")
+		return
+	}
+	i := idx[1]
+	rep := map[string]string{
+		"$r.track[" + i + "] = ($r.track[" + i + "] - 1)":                                           "$r.track[" + i + "] = ($r.track[" + i + "] + 1)",
+		"if (0 > $r.track[" + i + "])":                                                               "if ($r.shape[" + i + "] == $r.track[" + i + "])",
+		"$r.track[" + i + "] = ($r.shape[" + i + "] - 1)":                                            "$r.track[" + i + "] = 0",
+		"$r.nextIndex = ($r.nextIndex + ($r.strides[" + i + "] * ($r.shape[" + i + "] - 1)))":        "$r.nextIndex = ($r.nextIndex - ($r.strides[" + i + "] * ($r.shape[" + i + "] - 1)))",
+		"$r.nextIndex = ($r.nextIndex - $r.strides[" + i + "])":                                      "$r.nextIndex = ($r.strides[" + i + "] + $r.nextIndex)",
+	}
+	var lb []string
+	hits := 0
+	for _, l := range strings.Split(nb, "\n") {
+		t := strings.TrimSpace(l)
+		if r, ok := rep[t]; ok {
+			hits++
+			l = strings.Replace(l, t, r, 1)
+		}
+		lb = append(lb, l)
+	}
+	mb := strings.Join(lb, "\n")
+	if na == mb && hits == len(rep) {
+		rc.S.Ok("I6b", "ndNext~ndPrevious", pos, "mirror images (5 mirrored statements)")
+	} else {
+		rc.S.Viol("I6b", "ndNext~ndPrevious", pos, fmt.Sprintf("forward and backward odometer are not mirror images (%d of %d mirrored statements found): %s", hits, len(rep), firstDiff(na, mb))).Sig = firstDiff(na, mb)
+	}
+}
